@@ -69,7 +69,11 @@ def klass(site):
     if isinstance(c, ast.Call) and isinstance(c.func, ast.Attribute) and c.func.attr == "append" and any(is_value(a) for a in c.args):
         return "STORE", None
     if isinstance(c, ast.BoolOp) and isinstance(c.op, ast.Or) and c.values and is_value(c.values[0]):
-        return "OR_DEFAULT", ast.unparse(c.values[1])
+        # the default only passes the value on: classify by what consumes the whole expression
+        o = site.get("outer_node")
+        if isinstance(o, ast.Call) and isinstance(o.func, ast.Name) and o.func.id == "len" and o.args and o.args[0] is c:
+            return "OR_DEFAULT", ast.unparse(c.values[1])
+        return "OTHER", f"({ast.unparse(c)}) consumed by {site.get('outer_consumer')}"
     if isinstance(c, ast.IfExp) and (is_value(c.body) or is_value(c.test)):
         return "COND_VALUE", None
     if isinstance(c, (ast.JoinedStr, ast.FormattedValue)):
